@@ -7,6 +7,7 @@ import (
 	"io"
 	"net"
 	"net/http"
+	"os"
 	"strings"
 	"sync"
 	"time"
@@ -253,7 +254,13 @@ func relayFaults(a *Args) {
 			if kind == "backend-down" {
 				backendHost = fmt.Sprintf("127.0.0.1:%d", hx.FreePort())
 			}
-			e.agent, err = hx.StartAgent(hx.Bin("agent"), e.md, shim.url(), backendHost, "agent", agentArgs, nil)
+			// error paths of the agent run concurrently with its poll loop: use the race-detector build where
+			// there is one (a report with repository frames makes the agent exit: halt_on_error)
+			agentBin, agentEnv := hx.Bin("agent"), []string(nil)
+			if _, serr := os.Stat(hx.Bin("agent-race")); serr == nil {
+				agentBin, agentEnv = hx.Bin("agent-race"), []string{"GORACE=halt_on_error=1"}
+			}
+			e.agent, err = hx.StartAgent(agentBin, e.md, shim.url(), backendHost, "agent", agentArgs, agentEnv)
 			if err != nil {
 				res.Bad("cannot start agent: %v", err)
 				shim.close()
